@@ -3,9 +3,9 @@ CONSTANTS
   Firers = {"f1", "f2"}
   Variants = {"fallback", "poller"}
   Timers = {FALSE}
-  Quotas <- UniformQuotas
+  Quotas <- MixedQuotas
   NFiresSet = {1}
-  MaxFires = 1
+  MaxFires = 2
   Mutant = "none"
   WithStop = TRUE
 INVARIANT TypeOK
